@@ -87,13 +87,29 @@ Normal(T) ==
       idx == SetToSortSeq(keep, <)
   IN  [n \in DOMAIN idx |-> NormItem(T[idx[n]])]
 
+\* Layout groups (C20) are decided between the variants of one program, on what the crate itself returned, whatever
+\* else is wrong with a variant: n = NoToks when the variant's tokens cannot be compared (the lexing already differs
+\* from the specification's), then only the verdicts are compared.
+NoToks == <<[k |-> "?"]>>
+GroupStep(r, n, rl) ==
+  IF r.group = 0 THEN UNCHANGED grp
+  ELSE IF grp.id # r.group THEN grp' = [id |-> r.group, toks |-> n, ok |-> r.res = "ok", rl |-> rl, tl |-> r.row_lines]
+  ELSE LET Delta(xs, ys) == [j \in DOMAIN xs |-> xs[j] - ys[j]]
+       IN  /\ UNCHANGED grp
+           /\ IF n # NoToks /\ grp.toks # NoToks /\ n # grp.toks THEN Flag(r, "layout.tokens")
+              ELSE IF (r.res = "ok") # grp.ok THEN Flag(r, "layout.verdict")
+              \* `line` shifts by exactly the number of lines inserted above the row
+              ELSE IF r.res = "ok" /\ r.has_truth /\ Len(rl) = Len(grp.rl) /\ Len(r.row_lines) = Len(grp.tl) /\ Len(rl) = Len(r.row_lines)
+                      /\ Delta(rl, grp.rl) # Delta(r.row_lines, grp.tl) THEN Flag(r, "layout.lines")
+              ELSE TRUE
+
 Check(r) ==
   \E lx \in {LexTest(r.cs)} :        \* bound through a singleton set: evaluated exactly once
-  IF r.res = "panic" THEN Flag(r, "panic") /\ UNCHANGED grp
-  ELSE IF ~r.reparse_ok THEN Flag(r, "reparse") /\ UNCHANGED grp
-  ELSE IF lx.ok # r.lexed THEN Flag(r, "lex.tokens") /\ UNCHANGED grp
-  ELSE IF ~lx.ok THEN (IF r.res = "ok" THEN Flag(r, "accept.invalid") ELSE TRUE) /\ UNCHANGED grp
-  ELSE IF ~SameTokens(lx.toks, r.tokens) THEN Flag(r, "lex.tokens") /\ UNCHANGED grp
+  IF r.res = "panic" THEN Flag(r, "panic") /\ GroupStep(r, NoToks, <<>>)
+  ELSE IF ~r.reparse_ok THEN Flag(r, "reparse") /\ GroupStep(r, NoToks, <<>>)
+  ELSE IF lx.ok # r.lexed THEN Flag(r, "lex.tokens") /\ GroupStep(r, NoToks, <<>>)
+  ELSE IF ~lx.ok THEN (IF r.res = "ok" THEN Flag(r, "accept.invalid") ELSE TRUE) /\ GroupStep(r, NoToks, <<>>)
+  ELSE IF ~SameTokens(lx.toks, r.tokens) THEN Flag(r, "lex.tokens") /\ GroupStep(r, NoToks, <<>>)
   ELSE
     \E all \in {WithText(lx.toks, r)} :
     \E HT \in {SelectSeq(all, IsHeaderTok)} :
@@ -121,19 +137,7 @@ Check(r) ==
          \* print -> parse: the text is what Display printed for the statements r.ref_stmts
          ELSE IF r.has_ref /\ NoLines(b.stmts) # NoLines(r.ref_stmts) THEN Flag(r, "display.fixpoint")
          ELSE TRUE
-      /\ IF r.group = 0 THEN UNCHANGED grp
-         ELSE LET n == Normal(all)
-                  \* the crate's own row lines, and where the printer put the rows
-                  rl == IF r.res = "ok" THEN RowLines(r.dump.stmts) ELSE <<>>
-                  Delta(xs, ys) == [j \in DOMAIN xs |-> xs[j] - ys[j]]
-              IN  IF grp.id # r.group THEN grp' = [id |-> r.group, toks |-> n, ok |-> r.res = "ok", rl |-> rl, tl |-> r.row_lines]
-                  ELSE /\ UNCHANGED grp
-                       /\ IF n # grp.toks THEN Flag(r, "layout.tokens")
-                          ELSE IF (r.res = "ok") # grp.ok THEN Flag(r, "layout.verdict")
-                          \* `line` shifts by exactly the number of lines inserted above the row
-                          ELSE IF r.res = "ok" /\ r.has_truth /\ Len(rl) = Len(grp.rl) /\ Len(r.row_lines) = Len(grp.tl) /\ Len(rl) = Len(r.row_lines)
-                                  /\ Delta(rl, grp.rl) # Delta(r.row_lines, grp.tl) THEN Flag(r, "layout.lines")
-                          ELSE TRUE
+      /\ GroupStep(r, Normal(all), IF r.res = "ok" THEN RowLines(r.dump.stmts) ELSE <<>>)
 
 Step ==
   /\ l <= Len(Rec)
